@@ -16,7 +16,7 @@ func init() {
 		Meta: report.Meta{
 			Property: "C17",
 			Rule: "every command <<name w1 .. wk>>, k<=3 (quick: full word alphabet for k<=2, reduced for k=3), names from {foo, iffy, settings, jumpy, callous, declared, localhost, enumerate, caseload, stopper, elsewhere, elseifx, endiffy, é, x1, stop, wait (a host handler registered under the name of the stock command)}, " +
-				"words from {abc, é, true, false, 1, 007, -2, 3.5, -0.5, +3, inf, nan, Infinity, 0x10, True, 1., .5, -, 1.2.3, {1+1}, {\"s t\"}, {true}, {$v}, 2147483648, 9223372036854775807, 9223372036854775808, 18446744073709551615, -10000000000000000000, a 30-digit integer, 0.30000000000000004, 1.14, -0, 0.0, 00}, separators from {one space, three spaces, tab, leading / trailing space}; " +
+				"words from {abc, é, true, false, 1, 007, -2, 3.5, -0.5, +3, inf, nan, Infinity, 0x10, True, 1., .5, -, 1.2.3, {1+1}, {\"s t\"}, {true}, {$v}, 2147483648, 9223372036854775807, 9223372036854775808, 18446744073709551615, -10000000000000000000, a 30-digit integer, 0.30000000000000004, 1.14, -0, 0.0, 00}, separators from {one space, three spaces, tab, space-tab-space, U+3000, U+00A0, vertical tab, U+2003 + space, leading / trailing space}; " +
 				"handlers registered with raw AddCommand record their typed arguments; each name also unregistered, and a handler registered under \"stop\"; sequences of 2-3 commands (registered and unregistered ones) in one dialogue; loop: every command of 1-2 arguments from 8 (compound) inline expressions over variables, executed three times in a jump loop while the variables change; oracle: exactly one invocation of the handler of name with the typed list the property prescribes; " +
 				"a case is one command statement in one host configuration; non-trivial = at least one argument or a keyword-prefixed name",
 			StatesMean:  "distinct (command statement, host configuration) cases; transitions = real Next calls",
@@ -41,7 +41,7 @@ func runC17(ctx *report.Ctx) {
 		{w: "2147483648"}, {w: "9223372036854775807"}, {w: "9223372036854775808"}, {w: "18446744073709551615"}, {w: "-10000000000000000000"}, {w: "123456789012345678901234567890"},
 		{w: "0.30000000000000004"}, {w: "1.14"}, {w: "-0"}, {w: "0.0"}, {w: "00"}}
 	reduced := []word{words[0], words[2], words[4], words[6], words[10], words[15], words[19], words[20]}
-	seps := []string{" ", "   ", "\t", " \t "}
+	seps := []string{" ", "   ", "\t", " \t ", "\u3000", "\u00a0", "\v", "\u2003 "} // white space is what Unicode calls white space
 	var cmds []yc.CmdSpec
 	for _, n := range names {
 		cmds = append(cmds, yc.CmdSpec{Name: n})
